@@ -258,6 +258,41 @@ def params_family(rep, rnd):
     rep.exhaustive["8x8x2x2 parameter combinations"] = True
 
 
+def _regen():
+    import importlib.util
+    import os
+    spec = importlib.util.spec_from_file_location("verif_regen", os.path.join(os.path.dirname(os.path.dirname(os.path.abspath(__file__))), "tools", "regen.py"))
+    m = importlib.util.module_from_spec(spec)
+    spec.loader.exec_module(m)
+    return m
+
+
+def negotiation_table(rep):
+    """the strings of the regenerated negotiation table (coq/gen/GenNegotiation.v, the subject of NegotiationTie.v), each read by
+    the live code and judged against what it was rendered FROM: when the tie proof breaks, this names the failing value"""
+    R = _regen()
+    n_domain, strings = R.negotiation_strings()
+    intents = R.negotiation_strings.intents
+    bad = 0
+    for i, s in enumerate(strings[:n_domain]):
+        got = R.read_negotiation(s)
+        rep.add_case(("negotiation", s))
+        if got != intents[i]:
+            bad += 1
+            if bad <= 3:
+                rep.violation("the extension value %r negotiates %r, it states (server_max_window_bits, client_max_window_bits, server_no_context_takeover, client_no_context_takeover) = %r" % (s, got, intents[i]),
+                              scenario=dict(kind="negotiation", value=s, expected=list(intents[i])), family="C06:negotiation-table")
+    for s, exp in zip(strings[n_domain:], R.negotiation_strings.extra_expected):
+        rep.add_case(("negotiation", s))
+        got = R.read_negotiation(s)
+        if got != exp:
+            rep.violation("the extension value %r was read as %r; by RFC 7692 (window sizes are 1*DIGIT in 8..15, the last of repeated parameters wins, other extension tokens are ignored) it is %r" % (s, got, exp),
+                          scenario=dict(kind="negotiation", value=s, expected=exp if not isinstance(exp, tuple) else list(exp)), family="C06:negotiation-table")
+    rep.families.append(dict(name="C06:negotiation-table", cases=len(strings), exhaustive=True,
+                             rule="every permessage-deflate configuration (each window size absent or 8..15, each flag absent or present: 324), the parameters in every order, plus quoted and blank-padded spellings (%d values), and window sizes that must be refused: WebSocket.process_extensions of the live code against the configuration each value was rendered from; the same values are the rows of the regenerated table behind C06_running_code_reads_every_configuration" % n_domain))
+    rep.exhaustive["324 configurations x parameter orders"] = True
+
+
 def run(rep, info, model, tier, seed):
     rnd = random.Random(seed)
     proof_ok = rep.proof_obligations(info, "props/C06.v")
@@ -280,11 +315,19 @@ def run(rep, info, model, tier, seed):
     fam.run_family(rep, model, "C06:corrupted", cf, oracle, project=lambda t: [it for it in t if it[0] != 10],
                    rule="bit flips, truncation and garbage in a compressed message: either the exact content or a ProtocolError")
     params_family(rep, rnd)
+    negotiation_table(rep)
     if not proof_ok and not rep.violations:
         rep.broken("proof obligation props/C06.v no longer checks: %s" % (rep.coq_failure,))
 
 
 def replay(body):
+    if (body["scenario"] or {}).get("kind") == "negotiation":
+        sc = body["scenario"]
+        got = _regen().read_negotiation(sc["value"])
+        exp = tuple(sc["expected"]) if isinstance(sc["expected"], list) else sc["expected"]
+        print("value %r is read as %r, expected %r" % (sc["value"], got, exp))
+        print("REPLAY:", "property holds on this input" if got == exp else "VIOLATION reproduced: the negotiated configuration differs from the one stated")
+        return 0 if got == exp else 1
     if (body["scenario"] or {}).get("kind"):
         print("in-process family: re-run check.py C06 quick")
         return 2
